@@ -401,6 +401,9 @@ func (w *world) cert(desc string) *certMat {
 }
 
 func (w *world) pub(blob string) ssh.PublicKey {
+	if blob == "k0" { // no key at all (add-hardware-certificate with a nil key)
+		return nil
+	}
 	if blob[0] == 'k' {
 		return keyByName(blob).signer.PublicKey()
 	}
